@@ -13,6 +13,7 @@ type Layout struct {
 
 func newLayout(table tables.Layout) Layout {
 	fCount := len(table.FeatureList.Features)
+	lCount := len(table.LookupList.Lookups)
 	out := Layout{
 		Scripts:  make([]Script, len(table.ScriptList.Scripts)),
 		Features: make([]Feature, fCount),
@@ -30,6 +31,7 @@ func newLayout(table tables.Layout) Layout {
 		}
 	}
 	for i, f := range table.FeatureList.Features {
+		f.LookupListIndices = sanitizeIndices(f.LookupListIndices, lCount)
 		out.Features[i] = Feature{
 			Feature: f,
 			Tag:     table.FeatureList.Records[i].Tag,
@@ -37,6 +39,12 @@ func newLayout(table tables.Layout) Layout {
 	}
 	if table.FeatureVariations != nil {
 		out.FeatureVariations = table.FeatureVariations.FeatureVariationRecords
+		for _, record := range out.FeatureVariations {
+			subs := record.Substitutions.Substitutions
+			for i := range subs {
+				subs[i].AlternateFeature.LookupListIndices = sanitizeIndices(subs[i].AlternateFeature.LookupListIndices, lCount)
+			}
+		}
 	}
 	return out
 }
@@ -46,6 +54,28 @@ func sanitizeLangSys(langSys *tables.LangSys, featuresCount int) {
 		// invalid index : replace it by the sentinel value
 		langSys.RequiredFeatureIndex = 0xFFFF
 	}
+	langSys.FeatureIndices = sanitizeIndices(langSys.FeatureIndices, featuresCount)
+}
+
+// sanitizeIndices removes the (invalid) indices greater or equal to count
+func sanitizeIndices(indices []uint16, count int) []uint16 {
+	valid := true
+	for _, index := range indices {
+		if int(index) >= count {
+			valid = false
+			break
+		}
+	}
+	if valid { // common case
+		return indices
+	}
+	out := make([]uint16, 0, len(indices))
+	for _, index := range indices {
+		if int(index) < count {
+			out = append(out, index)
+		}
+	}
+	return out
 }
 
 type Script struct {
